@@ -265,12 +265,12 @@ def r3_stale_contribute_nothing(run):
               "cache.Cache::check_not_on_or_after-default",
               "expiry checking is on by default",
               "defaults are %s / %s" % (unparse(d), unparse(g)), fi.loc())
-    ents = [s for s in walk_no_nested(fi.node) if isinstance(s, ast.Assign) and
-            unparse(s.targets[0]) == "entities"]
-    run.check(len(ents) == 1 and unparse(ents[0].value) ==
-              "self._db[cni].keys()", "R3", fi.qual + "::all-sources",
+    ents = [nd for nd in cfg.by_kind("stmt") if isinstance(nd.ast, ast.Assign)
+            and unparse(nd.ast.targets[0]) == "entities"]
+    run.check(len(ents) == 1 and cfg.itext(ents[0].ast.value, ents[0].id) ==
+              "self._db[code(name_id)].keys()", "R3", fi.qual + "::all-sources",
               "without a list all sources of that subject are consulted",
-              "entities <- %s" % [unparse(e.value) for e in ents], fi.loc(),
+              "entities <- %s" % [unparse(e.ast.value) for e in ents], fi.loc(),
               nontrivial=False)
     rets = [unparse(r.ast.value) for r in cfg.by_kind("return")]
     run.check(sorted(rets) == ["(res, oldees)", "({}, [])"], "R3",
